@@ -284,17 +284,6 @@ Section Inv.
     change (2 ^ 32) with 4294967296. lia.
   Qed.
 
-  (* the age hypothesis for one event *)
-  Definition ev_age (st : net) (ev : net_event) : Prop :=
-    match ev with
-    | NDeliver to i =>
-        match nth_error (ep_out (net_get st (side_other to))) i with
-        | Some p => seg_age (net_get st to) (net_get st (side_other to)) (snd p)
-        | None => True
-        end
-    | _ => True
-    end.
-
   Ltac same8 tctx tincl :=
     split; [reflexivity|split; [tctx|split; [reflexivity|split; [reflexivity|split; [reflexivity|
     split; [reflexivity|split; [reflexivity|tincl]]]]]]].
@@ -361,5 +350,276 @@ Section Inv.
     - apply (Hep x (EvSend data) I Hstep); intros; discriminate.
     - apply (Hep x (EvRecv (Z.max 0 n)) I Hstep); [intros; discriminate|]. intros n0 E. inversion E. lia.
     - apply (Hep x EvClose I Hstep); intros; discriminate.
+  Qed.
+
+  (* ------------------------------------------------------------------------------------ *)
+  (* the initial state                                                                     *)
+  (* ------------------------------------------------------------------------------------ *)
+  Hypothesis c05new : c05_contract_new.
+
+  Definition cfg_ok (c : ep_config) : Prop :=
+    l_len (c_tx_storage c) <= 2 ^ 30 /\ wipv4_HEADER_LEN + wtcp_HEADER_LEN <= c_mtu c.
+
+  Definition init_ev (ev : event) : Prop :=
+    match ev with
+    | EvSetTimeout _ | EvSetKeepAlive _ | EvSetAckDelay _ | EvSetNagle _ | EvSetHopLimit _
+    | EvListen _ | EvConnect _ _ _ => True
+    | _ => False
+    end.
+
+  (* an endpoint before the first run event: nothing written, read or sent, both ghosts blank *)
+  Definition IE (S : Z -> Z) (F : option Z) (e : endpoint) (gt : txghost) (gr : rxghost) : Prop :=
+    inv gt (ep_sock e) /\ ctx_ok (ep_cx e) /\ ginv (fun _ => S) (fun _ => F) gr (ep_sock e) /\
+    tx_blank gt /\ g_irs gr = None /\ (forall k, ~ g_have gr k) /\
+    ep_sent e = [] /\ ep_out e = [] /\ ep_written e = [] /\ ep_read e = [] /\
+    ep_closed e = false /\ ep_finished e = false.
+
+  Lemma IE_step S F (HF : forall f, F = Some f -> 0 <= f) e gt gr ev e' :
+    IE S F e gt gr -> init_ev ev -> ep_step e ev = Ok e' ->
+    exists gt' gr', IE S F e' gt' gr'.
+  Proof.
+    intros (Hi & Hcx & Hg & Hb & Hn & Hh & E1 & E2 & E3 & E4 & E5 & E6) Hev Hep.
+    destruct (ep_step_spec _ _ _ Hep) as (s' & out & tags & Hstep & X1 & X2 & X3 & X4 & X5 & X6 & X7 & X8).
+    destruct (ginv_wf _ _ _ _ Hg) as (Hwf & _ & Hsh).
+    assert (Hevrx : ev_ok (fun _ => S) (fun _ => F) gr (ep_sock e) ev) by (destruct ev; try contradiction; exact I).
+    assert (Hevtx : match ev with EvSegment ip r => repr_ok r | _ => True end) by (destruct ev; try contradiction; exact I).
+    destruct (c05 _ _ _ _ _ _ _ Hi Hcx Hevtx (rb_wf_conv _ Hwf) Hsh Hstep) as (gt' & Hi' & Hrel & _).
+    pose proof (step_inv _ _ (Fx_nonneg F HF) _ _ _ _ _ _ _ Hg Hevrx Hstep) as (Hg' & _).
+    exists gt', (ghost_step (ep_cx e) gr (ep_sock e) ev s' out).
+    assert (Hwo : wire_out out = None).
+    { destruct ev; try contradiction; cbn [tcp_step] in Hstep.
+      - destruct (tcp_listen _ _); inversion Hstep; reflexivity.
+      - destruct (tcp_connect _ _ _ _ _); inversion Hstep; reflexivity.
+      - inversion Hstep; reflexivity.
+      - inversion Hstep; reflexivity.
+      - inversion Hstep; reflexivity.
+      - inversion Hstep; reflexivity.
+      - destruct (tcp_set_hop_limit _ _); cbn [obind] in Hstep; inversion Hstep; reflexivity. }
+    rewrite Hwo in X3, X4. cbn [opt_list] in X3, X4. rewrite app_nil_r in X3, X4.
+    unfold IE. rewrite X1, X2, X3, X4, X5, X6, X7, X8, E1, E2, E3, E4, E5, E6.
+    split; [exact Hi'|]. split; [exact Hcx|]. split; [exact Hg'|].
+    split.
+    { destruct Hrel as [Hs | (Hb' & _)]; [|exact Hb'].
+      destruct Hs as (_ & Hst & Hfin & _ & _ & Hle & _ & Hadv). destruct Hb as (B1 & B2 & B3).
+      unfold tx_blank. rewrite Hst, Hfin, B1, B2.
+      split; [destruct ev; try contradiction; reflexivity|].
+      split; [destruct ev; try contradiction; reflexivity|].
+      destruct (g_phase gt') eqn:Ep; [reflexivity|exfalso..].
+      all: rewrite (una_syn gt B3) in *;
+           assert (H1 : 1 <= g_una gt') by (apply (una_pos gt' s' Hi'); congruence);
+           destruct (Hadv ltac:(lia)) as (ip & r & Hev' & _); subst ev; contradiction. }
+    split.
+    { destruct ev; try contradiction; cbn [ghost_step]; try exact Hn; destruct out; try exact Hn; reflexivity. }
+    split.
+    { intros k. destruct ev; try contradiction; cbn [ghost_step]; try apply Hh;
+        destruct out; try apply Hh; cbn; tauto. }
+    repeat split; destruct ev; try contradiction; reflexivity.
+  Qed.
+
+  (* what the connecting side's socket looks like before the run *)
+  Definition AI (cx : ctx) (s : socket) : Prop :=
+    le_port (s_listen_endpoint s) = 0 /\
+    (s_state s = Closed \/ (s_state s = SynSent /\ s_local_seq_no s = cx_isn cx)).
+
+  Lemma AI_step cx s ev s' out tags :
+    AI cx s -> init_ev ev -> (forall ep, ev <> EvListen ep) -> tcp_step cx s ev = Ok (s', out, tags) -> AI cx s'.
+  Proof.
+    intros (A1 & A2) Hev Hnl Hstep. destruct ev; try contradiction; cbn [tcp_step] in Hstep.
+    - exfalso. apply (Hnl ep). reflexivity.
+    - destruct (tcp_connect cx s remote_addr remote_port local) as [s1|e|] eqn:Ec; inversion Hstep; subst; clear Hstep.
+      + unfold tcp_connect in Ec. destruct (tcp_is_open s); [discriminate|].
+        destruct (_ || _); [discriminate|]. destruct (le_port local =? 0); [discriminate|].
+        apply obind_ok_inv in Ec. destruct Ec as (la & _ & Ec). inversion Ec; subst.
+        unfold AI, tcp_reset. rproj. split; [reflexivity|]. right. split; reflexivity.
+      + split; assumption.
+    - inversion Hstep; subst. unfold AI, tcp_set_timeout. rproj. split; assumption.
+    - inversion Hstep; subst. unfold AI, tcp_set_keep_alive. destruct (is_some d); rproj; split; assumption.
+    - inversion Hstep; subst. unfold AI, tcp_set_ack_delay. rproj. split; assumption.
+    - inversion Hstep; subst. unfold AI, tcp_set_nagle_enabled. rproj. split; assumption.
+    - destruct (tcp_set_hop_limit s h) as [s1| |] eqn:Eh; cbn [obind] in Hstep; inversion Hstep; subst.
+      unfold tcp_set_hop_limit in Eh. destruct h as [[| |]|]; inversion Eh; subst; unfold AI; rproj; split; assumption.
+  Qed.
+
+  Lemma IE_create S F (HF : forall f, F = Some f -> 0 <= f) c e :
+    cfg_ok c -> ep_create c = Ok e ->
+    exists gt gr, IE S F e gt gr /\ AI (ep_cx e) (ep_sock e).
+  Proof.
+    intros (Hc1 & Hc2) He.
+    apply (ep_create_ind (fun e => exists gt gr, IE S F e gt gr /\ AI (ep_cx e) (ep_sock e)) c e); [| |exact He].
+    - intros s Hn. exists ghost0, g_init. split.
+      + unfold IE. cbn [ep_sock ep_cx ep_sent ep_out ep_written ep_read ep_closed ep_finished].
+        split; [apply (c05new _ _ _ _ _ Hn Hc1)|].
+        split; [unfold ctx_ok, cfg_ctx; cbn [cx_isn cx_ip_mtu]; split; [change (2 ^ 32) with 4294967296; lia | exact Hc2]|].
+        split; [apply (new_unsynced _ _ _ _ _ _ _ Hn)|].
+        split; [unfold tx_blank, ghost0; cbn; repeat split; reflexivity|].
+        split; [reflexivity|]. split; [intros k Hk; exact Hk|]. repeat split; reflexivity.
+      + unfold tcp_new in Hn. destruct (_ >? _); [discriminate|]. inversion Hn; subst.
+        unfold AI. cbn. split; [reflexivity | left; reflexivity].
+    - intros e0 ev e1 (gt & gr & Hie & Hai) Hs.
+      assert (Hgo : init_ev ev -> (forall ep, ev <> EvListen ep) ->
+                    exists gt' gr', IE S F e1 gt' gr' /\ AI (ep_cx e1) (ep_sock e1)).
+      { intros Hev Hnl. destruct (IE_step S F HF e0 gt gr ev e1 Hie Hev Hs) as (gt' & gr' & Hie').
+        exists gt', gr'. split; [exact Hie'|].
+        destruct (ep_step_spec _ _ _ Hs) as (s' & out & tags & Hstep & X1 & X2 & _).
+        rewrite X1, X2. eapply AI_step; eassumption. }
+      destruct ev; try exact I; apply Hgo; try exact I; intros ep E; discriminate.
+  Qed.
+
+  Theorem INV_init ca cb st0 Sa Fa Sb Fb :
+    cfg_ok ca -> cfg_ok cb -> net_init ca cb = Ok st0 ->
+    compat Sa Fa (n_a st0) -> compat Sb Fb (n_b st0) ->
+    exists ga gb, INV Sa Fa Sb Fb (cx_isn (ep_cx (n_a st0))) ga gb st0.
+  Proof.
+    intros Hca Hcb Hinit Cpa Cpb.
+    pose proof (compat_F_nonneg _ _ _ Cpa) as HFa. pose proof (compat_F_nonneg _ _ _ Cpb) as HFb.
+    pose proof (net_init_chan _ _ _ Hinit) as Hchan.
+    unfold net_init in Hinit.
+    apply obind_ok in Hinit. destruct Hinit as (a0 & Ea0 & Hinit).
+    apply obind_ok in Hinit. destruct Hinit as (b0 & Eb0 & Hinit).
+    apply obind_ok in Hinit. destruct Hinit as (b & Eb & Hinit).
+    apply obind_ok in Hinit. destruct Hinit as (a & Ea & Hinit). inversion Hinit; subst st0; clear Hinit.
+    cbn [n_a n_b] in *.
+    (* A receives B's stream, B receives A's *)
+    destruct (IE_create Sb Fb HFb ca a0 Hca Ea0) as (gta0 & gra0 & Hiea0 & Haia0).
+    destruct (IE_create Sa Fa HFa cb b0 Hcb Eb0) as (gtb0 & grb0 & Hieb0 & _).
+    destruct (IE_step Sa Fa HFa b0 gtb0 grb0 (EvListen (mkListenEp None (c_port cb))) b Hieb0 I Eb) as (gtb & grb & Hieb).
+    destruct (IE_step Sb Fb HFb a0 gta0 gra0 (EvConnect (c_addr cb) (c_port cb) (mkListenEp None (c_port ca))) a Hiea0 I Ea) as (gta & gra & Hiea).
+    assert (Haia : AI (ep_cx a) (ep_sock a)).
+    { destruct (ep_step_spec _ _ _ Ea) as (s' & out & tags & Hstep & X1 & X2 & _).
+      rewrite X1, X2.
+      apply (AI_step (ep_cx a0) (ep_sock a0) (EvConnect (c_addr cb) (c_port cb) (mkListenEp None (c_port ca))) s' out tags Haia0 I);
+        [intros ep E; discriminate | exact Hstep]. }
+    destruct Hiea as (Ai & Acx & Ag & Ab & An & Ah & A1 & A2 & A3 & A4 & A5 & A6).
+    destruct Hieb as (Bi & Bcx & Bg & Bb & Bn & Bh & B1 & B2 & B3 & B4 & B5 & B6).
+    exists (mkEg gta gra None None 0), (mkEg gtb grb None None 0).
+    assert (HEP : forall S F e gt gr,
+              inv gt (ep_sock e) -> ctx_ok (ep_cx e) -> ginv (fun _ => S) (fun _ => F) gr (ep_sock e) ->
+              tx_blank gt -> g_irs gr = None -> ep_written e = [] -> ep_read e = [] ->
+              ep_closed e = false -> ep_finished e = false ->
+              EP S F e (mkEg gt gr None None 0)).
+    { intros S F e gt gr Hi Hcx Hg (T1 & T2 & T3) Hn E3 E4 E5 E6. unfold EP. cbn [eg_tx eg_rx eg_J eg_K eg_R].
+      split; [exact Hi|]. split; [exact Hcx|]. split; [exact Hg|].
+      split; [left; rewrite T1, T2, E3, E5; split; reflexivity|].
+      split; [unfold rxl; rewrite Hn, E4, E6; split; [congruence|]; split; [left; reflexivity | discriminate]|].
+      split; [exact T3|]. unfold kl. rewrite Hn. split; [lia|]. split; [discriminate | left; reflexivity]. }
+    assert (HDIR : forall S F ex gtx grx ey gty gry,
+              ep_sent ex = [] -> ep_sent ey = [] -> (forall k, ~ g_have gry k) -> tx_blank gtx ->
+              DIR S F ex (mkEg gtx grx None None 0) ey (mkEg gty gry None None 0)).
+    { intros S F ex gtx grx ey gty gry E1 E2 Hh (_ & _ & T3). unfold DIR. cbn [eg_tx eg_rx eg_J eg_K eg_R].
+      rewrite E1, E2. split; [intros p []|]. split; [discriminate|]. split; [intros k Hk; destruct (Hh k Hk)|].
+      split; [reflexivity|]. split; [rewrite (una_syn gtx T3); lia|].
+      split; [pose proof (TcpRecvBase.l_len_nonneg (ep_written ex)); lia | intros p []]. }
+    unfold INV. cbn [n_a n_b].
+    split; [apply HEP; assumption|]. split; [apply HEP; assumption|].
+    split; [apply HDIR; assumption|]. split; [apply HDIR; assumption|].
+    split; [|exact Hchan].
+    destruct Haia as (L1 & L2). destruct Acx as (Hisn & _).
+    unfold ROLES. cbn [eg_tx eg_rx eg_J eg_K eg_R].
+    split; [change 4294967296 with (2 ^ 32); exact Hisn|]. split; [exact L1|].
+    split; [destruct L2 as [E | (E & _)]; rewrite E; discriminate|].
+    split.
+    { destruct L2 as [E | (E & Elsn)]; [right; split; assumption|]. left.
+      destruct Ai as ((_ & _ & _ & _ & _ & Hlsn & _) & _). destruct Ab as (_ & _ & T3).
+      rewrite (una_syn gta T3) in Hlsn. rewrite Z.add_0_r in Hlsn. rewrite <- Hlsn. exact Elsn. }
+    rewrite A1. split; [intros p []|]. split; [discriminate|]. split; [discriminate|].
+    split; [intros _ H; congruence | discriminate].
+  Qed.
+
+  (* ------------------------------------------------------------------------------------ *)
+  (* after close() nothing more is accepted by send (needs no compatibility of the oracle   *)
+  (* with the state after the step)                                                         *)
+  (* ------------------------------------------------------------------------------------ *)
+  Lemma frozen_ep S F e g ev e' :
+    EP S F e g -> ep_step e ev = Ok e' -> ep_closed e = true -> ep_written e' = ep_written e.
+  Proof.
+    intros (Hinv & Hcx & Hg & Htxl & _) Hep Hcl.
+    destruct (ep_step_spec _ _ _ Hep) as (s' & out & tags & Hstep & _ & _ & _ & _ & X4 & _).
+    rewrite X4. unfold log_written. destruct ev; try reflexivity. destruct out; try reflexivity.
+    destruct (ginv_wf _ _ _ _ Hg) as (Hwf & _ & Hsh).
+    destruct (c05 (ep_cx e) (eg_tx g) (ep_sock e) (EvSend data) s' (OSize n) tags Hinv Hcx I (rb_wf_conv _ Hwf) Hsh Hstep) as (gt' & _ & Hrel & _).
+    cbn [tcp_step] in Hstep.
+    destruct (tcp_send_slice (ep_sock e) data) as [(s1, n1)|err|] eqn:Es; inversion Hstep; subst s1 n1 tags; clear Hstep.
+    destruct (send_slice_tailf _ _ _ _ Es) as (_ & Hst).
+    assert (Hms : tcp_may_send (ep_sock e) = true).
+    { unfold tcp_send_slice in Es. destruct (tcp_may_send (ep_sock e)); [reflexivity | discriminate]. }
+    destruct Htxl as [(T1 & T2) | (Dc & _)].
+    - destruct Hrel as [(_ & Hst' & _ & Hfr & _) | (_ & [(Hc' & _) | (_ & Hf)])].
+      + rewrite Hcl in T2. specialize (Hfr T2). rewrite Hst' in Hfr. unfold log_written in Hfr.
+        rewrite <- (app_nil_r (g_stream (eg_tx g))) in Hfr at 2. apply app_inv_head in Hfr. rewrite Hfr. apply app_nil_r.
+      + exfalso. unfold tcp_may_send in Hms. rewrite <- Hst, Hc' in Hms. discriminate.
+      + contradiction.
+    - exfalso. unfold tcp_may_send in Hms. rewrite Dc in Hms. discriminate.
+  Qed.
+
+  Lemma net_frozen Sa Fa Sb Fb isn ga gb st ev st' :
+    INV Sa Fa Sb Fb isn ga gb st -> net_step st ev = Ok st' -> frozen st st'.
+  Proof.
+    intros (HEPa & HEPb & _) Hstep.
+    assert (HEP : forall x, exists S F g, EP S F (net_get st x) g).
+    { intros [|]; cbn [net_get]; eauto. }
+    assert (Hb : forall x ev0, (do e <- ep_step (net_get st x) ev0; Ok (net_set st x e)) = Ok st' -> frozen st st').
+    { intros x ev0 H. apply obind_ok in H. destruct H as (e & He & H). inversion H; subst st'.
+      intros y Hcl. destruct (side_cases x y) as [-> | ->].
+      - rewrite net_get_set_same. destruct (HEP x) as (S & F & g & Hep). eapply frozen_ep; eassumption.
+      - rewrite net_get_set_other. reflexivity. }
+    unfold net_step in Hstep. destruct ev; try (eapply Hb; exact Hstep).
+    - destruct (nth_error _ i); [eapply Hb; exact Hstep | inversion Hstep; subst; intros y _; reflexivity].
+    - inversion Hstep; subst. intros y _. destruct (side_cases (side_other to) y) as [-> | ->];
+        [rewrite net_get_set_same | rewrite net_get_set_other]; reflexivity.
+    - inversion Hstep; subst. intros y _. destruct (side_cases (side_other to) y) as [-> | ->];
+        [rewrite net_get_set_same | rewrite net_get_set_other]; reflexivity.
+    - inversion Hstep; subst. intros [|] _; reflexivity.
+    - inversion Hstep; subst. intros y _. destruct (side_cases x y) as [-> | ->];
+        [rewrite net_get_set_same | rewrite net_get_set_other]; reflexivity.
+  Qed.
+
+  (* ------------------------------------------------------------------------------------ *)
+  (* every reachable state, every compatible oracle                                        *)
+  (* ------------------------------------------------------------------------------------ *)
+  Lemma net_run_snoc st evs ev st' :
+    net_run st (evs ++ [ev]) = Ok st' <-> exists st1, net_run st evs = Ok st1 /\ net_step st1 ev = Ok st'.
+  Proof.
+    revert st. induction evs as [|e evs IH]; intros st; cbn [net_run app].
+    - split.
+      + intros H. apply obind_ok in H. destruct H as (st1 & H1 & H2). inversion H2; subst. exists st. split; [reflexivity | exact H1].
+      + intros (st1 & H1 & H2). inversion H1; subst. rewrite H2. reflexivity.
+    - split.
+      + intros H. apply obind_ok in H. destruct H as (st2 & H1 & H2). apply IH in H2.
+        destruct H2 as (st1 & H3 & H4). exists st1. rewrite H1. cbn [obind]. split; assumption.
+      + intros (st1 & H1 & H2). apply obind_ok in H1. destruct H1 as (st2 & H3 & H4). rewrite H3. cbn [obind].
+        apply IH. exists st1. split; assumption.
+  Qed.
+
+  Lemma run_age_snoc st evs ev st1 :
+    net_run st evs = Ok st1 -> run_age st (evs ++ [ev]) -> run_age st evs /\ ev_age st1 ev.
+  Proof.
+    revert st. induction evs as [|e evs IH]; intros st Hr Ha; cbn [net_run app run_age] in *.
+    - inversion Hr; subst. split; [exact I | apply Ha].
+    - apply obind_ok in Hr. destruct Hr as (st2 & H1 & H2). destruct Ha as (Ha1 & Ha2). rewrite H1 in *.
+      destruct (IH st2 H2 Ha2) as (I1 & I2). split; [split; assumption | exact I2].
+  Qed.
+
+  Theorem INV_reach ca cb st0 evs st :
+    cfg_ok ca -> cfg_ok cb -> net_init ca cb = Ok st0 ->
+    net_run st0 evs = Ok st -> run_age st0 evs ->
+    forall Sa Fa Sb Fb, compat Sa Fa (n_a st) -> compat Sb Fb (n_b st) ->
+    exists ga gb, INV Sa Fa Sb Fb (cx_isn (ep_cx (n_a st0))) ga gb st.
+  Proof.
+    intros Hca Hcb Hinit. revert st.
+    induction evs as [|ev evs IH] using rev_ind; intros st Hrun Hage Sa Fa Sb Fb Cpa Cpb.
+    - cbn [net_run] in Hrun. inversion Hrun; subst. apply (INV_init ca cb st Sa Fa Sb Fb Hca Hcb Hinit Cpa Cpb).
+    - apply net_run_snoc in Hrun. destruct Hrun as (st1 & Hr1 & Hs).
+      destruct (run_age_snoc _ _ _ _ Hr1 Hage) as (Hage1 & Hagev).
+      (* the step freezes closed streams: use the invariant for the oracle of st1 itself *)
+      destruct (IH st1 Hr1 Hage1 _ _ _ _ (compat_oracle (n_a st1)) (compat_oracle (n_b st1))) as (ga0 & gb0 & Hinv0).
+      pose proof (net_frozen _ _ _ _ _ _ _ _ _ _ Hinv0 Hs) as Hfr.
+      pose proof (net_step_mono _ _ _ Hs) as Hmono.
+      assert (Cpa1 : compat Sa Fa (n_a st1)).
+      { apply (compat_mono Sa Fa (n_a st1) (n_a st)); [apply (Hmono SA) | apply (Hfr SA) | exact Cpa]. }
+      assert (Cpb1 : compat Sb Fb (n_b st1)).
+      { apply (compat_mono Sb Fb (n_b st1) (n_b st)); [apply (Hmono SB) | apply (Hfr SB) | exact Cpb]. }
+      destruct (IH st1 Hr1 Hage1 Sa Fa Sb Fb Cpa1 Cpb1) as (ga & gb & Hinv).
+      destruct (INV_step _ _ _ _ _ _ _ _ _ _ Hinv Hs Hagev Cpa Cpb) as (ga' & gb' & Hinv' & _).
+      exists ga', gb'. exact Hinv'.
   Qed.
 End Inv.
